@@ -81,6 +81,7 @@ def normsig(path):
 def origin_sig(o, x):
     import hashlib
     if o.startswith("ast:commented/"): return "stmt=commented"
+    if o.startswith("ast:c-"): return o[4:]                            # construct universe: family/choices
     if o.startswith("ast:kind-tablecol/"): return "kind-tablecol"      # the table-literal emitter, whatever the column kind
     if o.startswith("ast:"): return o.split("/")[1]
     return o.split(":")[0] + ":" + hashlib.sha1(x.encode("utf8")).hexdigest()[:8]
@@ -101,6 +102,11 @@ def run(rep, tier, seed):
     tk.cases.sort(key=lambda c: json.dumps(c, sort_keys=True))
     for cs in tk.cases:
         texts.append(render_kind(cs)); origin.append(f"ast:kind-{cs['ctx']}/{cs['kind']['k']}")
+    tc = tlc.run("MC_C08c", "MC_C08c.cfg", workers=4, timeout=600)
+    if not tc.ok: raise tlc.TlcError("MC_C08c did not complete")
+    from areas import c08c
+    for cs in sorted(tc.cases, key=lambda c: json.dumps(c, sort_keys=True)):
+        texts.append(c08c.render(cs)); origin.append("ast:" + c08c.key(cs))
     nmodel = len(texts)
     for p in repo_programs():
         texts.append(p); origin.append("test-program")
